@@ -65,6 +65,27 @@ theorem idle_rank_moves {n : Nat} {s : Sys} {q : Nat} (hq : q < n) (hin : s.inBa
   · left
     simp only [step, hq, hin, hb, hc, hrg, hrule, not_false_eq_true, and_self, if_true, Option.isSome_some]
 
+/-- a step of a rank's own barrier loop -/
+def isLoop : Label → Bool
+  | .contribute _ => true
+  | .result _ => true
+  | .exit _ => true
+  | _ => false
+
+/-- every rank idle inside barrier(): the rank furthest behind in the global sequence of rounds moves -/
+theorem C02ME_idle_never_stuck (n : Nat) (hn : 0 < n) (s : Sys) (hi : Inv n s)
+    (hall : ∀ r, r < n → s.inBar r = true) (hnb : ∀ r, r < n → s.busy r = false)
+    (hnc : ∀ r, r < n → s.cbs r = 0) : ∃ l, isLoop l = true ∧ (step n s l).isSome = true := by
+  obtain ⟨q, hq, hmin⟩ := exists_min n hn s.rounds
+  have hrg := hi.rg q hq
+  by_cases he : s.rounds q = s.got q
+  · rcases idle_rank_moves hq (hall q hq) (hnb q hq) (hnc q hq) he with h | h
+    · exact ⟨_, rfl, h⟩
+    · exact ⟨_, rfl, h⟩
+  · have hr1 : s.rounds q = s.got q + 1 := by omega
+    have hfull : s.cnt (s.got q) = n := cnt_full hi (s.got q) (fun r hr => by have := hmin r hr; omega)
+    exact ⟨.result q, rfl, by simp only [step, hq, hall q hq, hr1, hfull, and_self, if_true, Option.isSome_some]⟩
+
 /-- **no deadlock inside the barrier**: when every rank is inside barrier() some step is enabled -/
 theorem C02ME_never_stuck (n : Nat) (hn : 0 < n) (s : Sys) (ls : List Label) (hrun : run n init ls = some s)
     (hall : ∀ r, r < n → s.inBar r = true) : ∃ l, (step n s l).isSome = true := by
